@@ -1,6 +1,11 @@
 import SJ.Props.C09
+import SJ.Props.C09Stream
 #print axioms SJ.Props.C09.c09_slice_reader
 #print axioms SJ.Props.C09.c09_str_slice_ignored
 #print axioms SJ.Props.C09.c09_str_slice_value
 #print axioms SJ.Props.C09.c09_str_slice
 #print axioms SJ.Props.C09.c09_all_sources
+#print axioms SJ.Props.C09.c09_stream_offsets
+#print axioms SJ.Props.C09.c09_stream_offsets_from
+#print axioms SJ.Props.C09.c09_raw_sources
+#print axioms SJ.Props.C09.c09_raw_nested_sources
